@@ -385,6 +385,7 @@ func (t *WeightedMerkleTrie) Commit(collapseLevel int) (storage.Batcher, error) 
 		close(deleteChan)
 		close(createdChan)
 		wg.Wait()
+		t.dropRecreatedFromTempDeleted()
 	}()
 	t.collectDeleteAndCreated(deleteChan, createdChan, wg)
 	if ok {
@@ -578,4 +579,23 @@ func (t *WeightedMerkleTrie) collectDeleteAndCreated(deleteChan, createdChan cha
 		}
 		wg.Done()
 	}()
+}
+
+// dropRecreatedFromTempDeleted removes from the pending deletions every hash that the
+// commit just (re)created, so that a later DeleteNodes does not remove a live node.
+func (t *WeightedMerkleTrie) dropRecreatedFromTempDeleted() {
+	if len(t.created) == 0 || len(t.tempDeleted) == 0 {
+		return
+	}
+	created := make(map[string]struct{}, len(t.created))
+	for _, h := range t.created {
+		created[string(h)] = struct{}{}
+	}
+	kept := t.tempDeleted[:0]
+	for _, h := range t.tempDeleted {
+		if _, ok := created[string(h)]; !ok {
+			kept = append(kept, h)
+		}
+	}
+	t.tempDeleted = kept
 }
